@@ -46,12 +46,12 @@ func runPipe(delim byte, failAt int, chunks []string, pauses []int) string {
 	defer os.Remove(path)
 	npi := namedpipe.NewNamedPipeIngester(zap.NewNop().Sugar(), health.NewHealth())
 	var mu sync.Mutex
-	var out []string
+	var kept []string // the records exactly as handed over: kept, and looked at only when the stream is over
 	calls := 0
 	cb := func(_ context.Context, rec string) error {
 		mu.Lock()
 		defer mu.Unlock()
-		out = append(out, "D:"+hx(rec))
+		kept = append(kept, rec)
 		k := calls
 		calls++
 		if k == failAt {
@@ -102,7 +102,13 @@ func runPipe(delim byte, failAt int, chunks []string, pauses []int) string {
 	}
 	mu.Lock()
 	defer mu.Unlock()
-	return strings.Join(append(append([]string{}, out...), res), ";")
+	// a consumer may keep a record for as long as it likes (the audit ingester queues it in a channel):
+	// what it reads later must still be what was delivered
+	var out []string
+	for _, rec := range kept {
+		out = append(out, "D:"+hx(rec))
+	}
+	return strings.Join(append(out, res), ";")
 }
 
 func init() {
